@@ -46,7 +46,8 @@ ASSUMPTIONS = ["set displays ({x}) in the library hold one element", "listing-or
 CFGS = [dict(fam=f, ne=True, avoid=True, width=None) for f in ms.FAMS] + \
        [dict(fam=f, ne=True, avoid=True, width=None, max_dist=1.5) for f in ms.FAMS] + \
        [dict(fam="SN", ne=False, avoid=True, width=None, min_prob_norm=0.3), dict(fam="D", ne=True, avoid=True, width=1)]
-LCFGS = [dict(fam="S", ne=True, avoid=True, width=None), dict(fam="SN", ne=True, avoid=True, width=2), dict(fam="D", ne=True, avoid=True, width=None, max_dist=2.5)]
+LCFGS = [dict(fam="S", ne=True, avoid=True, width=None), dict(fam="SN", ne=True, avoid=True, width=2), dict(fam="D", ne=True, avoid=True, width=None, max_dist=2.5),
+         dict(fam="D", ne=True, avoid=True, width=1), dict(fam="S", ne=True, avoid=True, width=1)]
 
 
 # ------------------------------------------------------------------ the scheduler
@@ -143,7 +144,7 @@ def special_trace_list(pos, graph):
     idx = ps.span_idx(n)
     out = [[near[min(i, n)] for i in t] for t in idx]
     out.append([near[0], near[n], al.FAR[pos]])
-    return out
+    return ms.axis_traces(graph) + out
 
 
 def space(tier):
